@@ -428,8 +428,27 @@ func runC07_5(c *core.Ctx) {
 			}
 			fl, ok := ast.Unparen(call.Args[0]).(*ast.FuncLit)
 			if !ok {
-				c.Undecided(f.Name, "poll callback", call.Pos(), "Polling callback is not a function literal; idiom not recognised")
-				continue
+				// a method value or function name: the callback was given a name – its declaration is the literal
+				var cb *types.Func
+				switch a := ast.Unparen(call.Args[0]).(type) {
+				case *ast.SelectorExpr:
+					if sel, ok := f.Info.Selections[a]; ok && sel.Kind() == types.MethodVal {
+						cb, _ = sel.Obj().(*types.Func)
+					}
+				case *ast.Ident:
+					cb, _ = f.Info.Uses[a].(*types.Func)
+				}
+				if cf := func() *fn {
+					if cb == nil || c.P.Decl(cb) == nil {
+						return nil
+					}
+					return fnOf(c, cb)
+				}(); cf != nil && cf.Decl.Body != nil && cf.Decl.Type.Params != nil && len(cf.Decl.Type.Params.List) > 0 && len(cf.Decl.Type.Params.List[0].Names) > 0 {
+					fl = &ast.FuncLit{Type: cf.Decl.Type, Body: cf.Decl.Body}
+				} else {
+					c.Undecided(f.Name, "poll callback", call.Pos(), "Polling callback is neither a function literal nor a function of the module; idiom not recognised")
+					continue
+				}
 			}
 			fdParam, _ := f.Info.Defs[fl.Type.Params.List[0].Names[0]].(*types.Var)
 			g := f.litGraph(fl)
